@@ -36,7 +36,11 @@ RULE = ("random single-inheritance chains (depth<=3, attrs classes via attr.s/de
         "default token only while of that exact type), and a field showing its default must hold the DECLARED object (identity; "
         "a breach is the pseudo-event `default-not-identical`); non-self factories are written `factory=f` or `default=Factory(f)`; "
         "15% of the fields use hostile-but-valid callable OBJECTS (falsy, __len__ 0, raising __bool__, raising __eq__, equal to "
-        "everything) as factory / converter / validator where the unchanged attrs accepts them; post-init hooks may re-store "
+        "everything) as factory / converter / validator where the unchanged attrs accepts them; half of the converting fields "
+        "write their traced converter callables (chain members too) the `lambda v, n=n: ...` way (conv_bind: no closure, ONE code "
+        "object shared by every such converter of the process, differing only in keyword defaults / __annotations__), 40% of "
+        "the per-field hook callables are falsy / empty-container callable objects (hook_odd) -- both harness-only variation "
+        "the model is independent of; post-init hooks may re-store "
         "fields / call BaseException.__init__; the hooked-base <- plain <- SLOTTED-subclass shape is generated whenever the "
         "subclass's own class-level hook is alive (only the genuinely 'slotted confused' shape, K6 of C06, stays out -- also "
         "out of the shrinker). "
@@ -247,6 +251,8 @@ def history_dist(case):
         "conv_shared": sum(1 for f in fs if f.get("conv_shared") and f.get("converter") in ("c01", "c11")),
         "dflt_kinds": ",".join(sorted({f.get("dflt_kind", "str") for f in fs if f.get("default") == "value"})) or "-",
         "cb_odd": ",".join(sorted({f["cb_odd"] for f in fs if f.get("cb_odd")})) or "-",
+        "conv_bind_defaults": sum(1 for f in fs if f.get("conv_bind") and f.get("converter")),
+        "hook_odd": ",".join(sorted({f["hook_odd"] for f in fs if f.get("hook_odd") and f.get("on_setattr") in ("hook", "hooks2")})) or "-",
         "factory_Factory": sum(1 for f in fs if f.get("default") == "factory" and f.get("factory_style") == "Factory"),
         "post_mode": "+".join(str(cs.get("post_mode") or ("p" if cs.get("post") else "-")) for cs in cl),
         "plain_mid_slotted_leaf": bool(len(cl) >= 3 and any(c["kind"] == "plain" for c in cl[1:-1]) and ib.leaf_slots(cl[-1])),
@@ -297,7 +303,7 @@ def shrink_history(case, remake):
             h2["classes"][ci]["deco"]["shared"] = False
             yield from remake(h2, call)
         for fi, f in enumerate(cs.get("fields", [])):
-            for key in ("v_shared", "v_deco", "v_and", "cb_odd", "factory_style", "dflt_kind", "conv_shared", "conv_prime", "helper_sub"):
+            for key in ("v_shared", "v_deco", "v_and", "cb_odd", "factory_style", "dflt_kind", "conv_shared", "conv_prime", "helper_sub", "conv_bind", "hook_odd"):
                 if f.get(key) and f.get(key) not in ("str", "sugar"):
                     h2 = copy.deepcopy(h)
                     h2["classes"][ci]["fields"][fi].pop(key)
